@@ -35,6 +35,8 @@ type c13case struct {
 	tbl *rangeproof.SquaresTable
 	// mBits: exact bit length of the attribute (0: 200..252 random bits)
 	mBits int
+	// idx: position of the hidden attribute in the credential (0: position 2); positions above 2 use the 12-base key
+	idx int
 }
 
 // c13Extreme: true statements proved while single reads of crypto/rand.Reader return all ones / all zeros.
@@ -97,11 +99,11 @@ func runC13(r *mon.Run) {
 	for d := int64(0); d <= 300; d++ {
 		for _, s := range []int{1, -1} {
 			f := uint(1 + (d+int64(s)+1)%8)
-			cases = append(cases, c13case{s, f, bi(d), false, nil, 0})
+			cases = append(cases, c13case{s, f, bi(d), false, nil, 0, 0})
 			if d <= 40 {
 				for ff := uint(1); ff <= 8; ff++ {
 					if ff != f {
-						cases = append(cases, c13case{s, ff, bi(d), false, nil, 0})
+						cases = append(cases, c13case{s, ff, bi(d), false, nil, 0, 0})
 					}
 				}
 			}
@@ -115,14 +117,14 @@ func runC13(r *mon.Run) {
 	for k := uint(2); k <= 255; k += uint(step) {
 		for _, dlt := range []int64{-1, 0, 1} {
 			v := add(pow2(k), bi(dlt))
-			cases = append(cases, c13case{1 - 2*int(k%2), uint(1 + k%8), v, false, nil, 0})
+			cases = append(cases, c13case{1 - 2*int(k%2), uint(1 + k%8), v, false, nil, 0, 0})
 		}
 	}
-	cases = append(cases, c13case{1, 1, sub(pow2(256), bigOne), false, nil, 0}, c13case{-1, 8, sub(pow2(256), bigOne), false, nil, 0}, c13case{1, 3, sub(pow2(256), bi(8)), false, nil, 0})
+	cases = append(cases, c13case{1, 1, sub(pow2(256), bigOne), false, nil, 0, 0}, c13case{-1, 8, sub(pow2(256), bigOne), false, nil, 0, 0}, c13case{1, 3, sub(pow2(256), bi(8)), false, nil, 0, 0})
 	for a := uint(0); a <= 20; a += 2 {
 		for b := int64(0); b < 6; b++ {
 			v := mul(pow2(2*a), bi(8*b+7)) // numbers that are NOT sums of three squares
-			cases = append(cases, c13case{1, 1, v, false, nil, 0}, c13case{-1, 2, v, false, nil, 0})
+			cases = append(cases, c13case{1, 1, v, false, nil, 0, 0}, c13case{-1, 2, v, false, nil, 0, 0})
 		}
 	}
 	for i := 0; i < r.Pick(150, 9000); i++ {
@@ -134,14 +136,14 @@ func runC13(r *mon.Run) {
 				v.Rsh(v, 2)
 			}
 		}
-		cases = append(cases, c13case{1 - 2*rng.IntN(2), uint(1 + rng.IntN(8)), v, false, nil, 0})
+		cases = append(cases, c13case{1 - 2*rng.IntN(2), uint(1 + rng.IntN(8)), v, false, nil, 0, 0})
 	}
 	// three squares: every table entry, both signs
 	for d := int64(0); d <= 4096; d++ {
 		if !r.Thorough() && d > 64 && d < 4000 && d%3 != 0 {
 			continue
 		}
-		cases = append(cases, c13case{1, 1, bi(d), true, nil, 0}, c13case{-1, 1, bi(d), true, nil, 0})
+		cases = append(cases, c13case{1, 1, bi(d), true, nil, 0, 0}, c13case{-1, 1, bi(d), true, nil, 0, 0})
 	}
 	// attributes of full size (the rescaled bound then has up to 3 bits more than the attribute)
 	for _, mb := range []int{253, 254, 255, 256} {
@@ -152,6 +154,12 @@ func runC13(r *mon.Run) {
 				}
 				cases = append(cases, c13case{sign: sg, f: 1, diff: bi(dv), three: true, mBits: mb})
 			}
+		}
+	}
+	// the hidden attribute at every position the largest fixture key offers (positions 3..11)
+	for posn := 3; posn <= 11; posn++ {
+		for _, sg := range []int{1, -1} {
+			cases = append(cases, c13case{sign: sg, f: 1, diff: bi(int64(posn)), idx: posn}, c13case{sign: sg, f: 3, diff: bi(0), idx: posn}, c13case{sign: sg, f: 1, diff: bi(21), three: true, idx: posn})
 		}
 	}
 	// tables of other sizes (the number of bits reserved for the roots is derived from the table size): every entry
@@ -166,9 +174,9 @@ func runC13(r *mon.Run) {
 			step = 37
 		}
 		for d := int64(0); d <= lim; d += step {
-			cases = append(cases, c13case{1 - 2*int(d%2), 1, bi(d), true, tb, 0})
+			cases = append(cases, c13case{1 - 2*int(d%2), 1, bi(d), true, tb, 0, 0})
 		}
-		cases = append(cases, c13case{1, 1, bi(lim), true, tb, 0}, c13case{-1, 1, bi(lim), true, tb, 0})
+		cases = append(cases, c13case{1, 1, bi(lim), true, tb, 0, 0}, c13case{-1, 1, bi(lim), true, tb, 0, 0})
 	}
 	r.Set("three_square_table_sizes", len(limits)+1)
 	r.Set("three_square_entries_exhaustive", r.Thorough())
@@ -370,7 +378,18 @@ func dumpStatements(stm map[int][]*rangeproof.Statement) map[string]any {
 
 func c13Single(r *mon.Run, key *world.Key, jr *rand.Rand, c c13case, table *rangeproof.SquaresTable, idx int) {
 	m, st := mkStatement(jr, c, table)
-	cred, err := key.SignCred([]*big.Int{randBig(jr, 250), bi(77), m})
+	pos := 2
+	attrs := []*big.Int{randBig(jr, 250), bi(77), m}
+	if c.idx > 2 {
+		key = world.Fixture("fix1024a")
+		pos = c.idx
+		attrs = []*big.Int{randBig(jr, 250)}
+		for i := 1; i < pos; i++ {
+			attrs = append(attrs, bi(int64(70+i)))
+		}
+		attrs = append(attrs, m)
+	}
+	cred, err := key.SignCred(attrs)
 	if err != nil {
 		panic(err)
 	}
@@ -379,7 +398,10 @@ func c13Single(r *mon.Run, key *world.Key, jr *rand.Rand, c c13case, table *rang
 		family = "three-squares"
 	}
 	desc := fmt.Sprintf("sign=%d factor=%d diff=%s (bits %d) m_bits=%d", c.sign, c.f, shortInt(c.diff), c.diff.BitLen(), m.BitLen())
-	c13Judge(r, family, desc, key, cred, map[int][]*rangeproof.Statement{2: {st}}, idx%2500 == 0)
+	if pos != 2 {
+		desc += fmt.Sprintf(" attribute position %d", pos)
+	}
+	c13Judge(r, family, desc, key, cred, map[int][]*rangeproof.Statement{pos: {st}}, idx%2500 == 0)
 }
 
 func shortInt(x *big.Int) string {
